@@ -144,6 +144,9 @@ func propC09(c *Ctx, r *Report) {
 	c.runStaleHandles(r, "phase.stalehandles", "wgsl/internal/lower", nil)
 	r.floor("phase.renumberingTails", 1)
 	r.floor("phase.afterRenumbering", 8)
+	r.Clauses = append(r.Clauses, silentDefaultClause)
+	c.runSilentDefault(r, "eval.silentdefault", "wgsl/internal/lower", nil)
+	r.floor("eval.silentdefault", 6)
 	r.Clauses = append(r.Clauses, zeroSentinelClause)
 	c.runZeroSentinel(r, "handle.zerosentinel", func(string) bool { return true }, zeroSentinelExceptions)
 	r.floor("handle.sentinelFuncs", 1)
@@ -180,6 +183,9 @@ func propC14(c *Ctx, r *Report) {
 	}, true, false, nil)
 	c.runRebuild(r, "rebuild.complete", "overrides.rebuilds", inPkgs("ir", "msl/internal/codegen"), nil)
 	c.runEvaluators(r, "eval.default", "overrides.evaluators", inPkgs("ir", "msl/internal/codegen", "glsl/internal/codegen"), nil)
+	r.Clauses = append(r.Clauses, silentDefaultClause)
+	c.runSilentDefault(r, "eval.silentdefault", "wgsl/internal/lower", nil)
+	r.floor("eval.silentdefault", 6)
 	r.floor("overrides.evaluators", 2)
 	for _, sp := range cloneSpecs[:2] {
 		c.runClone(r, "clone.fresh", sp)
@@ -255,7 +261,7 @@ func propC13(c *Ctx, r *Report) {
 	r.floor("passes.Block.walkers", 10)
 }
 
-const staleHandlesClause = "renumbered type arena (E54): whatever the lowerer runs after ir.CompactTypes / ir.ReorderTypes (in the function that calls them) does not read the lowerer's own tables of type handles filled before the renumbering - a map to ir.TypeHandle or the type registry"
+const staleHandlesClause = "renumbered arenas (E54): whatever the lowerer runs after ir.CompactTypes / ir.ReorderTypes / ir.CompactConstants (in the function that calls them) does not read the lowerer's own tables of type or constant handles filled before the renumbering - a map to ir.TypeHandle / ir.ConstantHandle or the type registry"
 
 const zeroSentinelClause = "zero is a handle (E53): where a function whose only result is an ir.TypeHandle answers a failed search of the type arena with the constant 0, each caller compares the result with 0 before using it as a type"
 
